@@ -615,6 +615,7 @@ func runGen(o *hx.Out, r *hx.Rng, rounds int) {
 func main() {
 	genEP := flag.String("gen-entrypoints", "", "write Gen/EntryPoints.lean here and exit")
 	repoRoot := flag.String("repo", "/repo", "library source tree (for -gen-entrypoints)")
+	aimFlag := flag.String("aim", "", "comma-separated Go type names (ZodString,…) the entry-point table reports as re-routed: extra rounds")
 	c := hx.ParseFlags()
 	if *genEP != "" {
 		if err := genEntryPoints(*repoRoot, *genEP); err != nil {
@@ -641,6 +642,22 @@ func main() {
 	runGen(o, r, rounds)
 	runHistStr(o, r, nHistStr)
 	runHistGen(o, r, histRounds)
+	aim := map[string]bool{}
+	for _, a := range strings.Split(*aimFlag, ",") {
+		if a != "" {
+			aim[a] = true
+		}
+	}
+	rounds2 := 40
+	if c.Thorough() {
+		rounds2 = 1000
+	}
+	runGen2(o, r, rounds2, aim)
+	nHistInt := 1500
+	if c.Thorough() {
+		nHistInt = 40000
+	}
+	runHistInt(o, r, nHistInt)
 	if err := o.Close(map[string]any{"seed": c.Seed, "tier": c.Tier}); err != nil {
 		fmt.Fprintln(os.Stderr, err)
 		os.Exit(3)
